@@ -168,6 +168,17 @@ func (ev *Eval) eval(e ast.Expr) *Val {
 		return ev.sliceExpr(x)
 	case *ast.CallExpr:
 		return ev.callExpr(x)
+	case *ast.TypeAssertExpr:
+		v := ev.eval(x.X)
+		tn := ev.typeName(x.Type)
+		if v.K == KIface && tn != nil {
+			return f.unbox(ev.st, v.Fs[1].T, tn)
+		}
+		if se, ok := x.Type.(*ast.StarExpr); ok && v.K == KIface {
+			if tn := ev.typeName(se.X); tn != nil {
+				return f.unbox(ev.st, v.Fs[1].T, types.NewPointer(tn))
+			}
+		}
 	case *ast.StarExpr:
 		p := ev.eval(x.X)
 		if p.K == KPtr {
@@ -300,7 +311,21 @@ func (ev *Eval) localVar(name string) *Val {
 	if !ok || v.Pkg() != f.fn.Pkg.Pkg || v.Parent() == f.fn.Pkg.Pkg.Scope() {
 		return nil
 	}
-	a := f.declPos[v.Pos()]
+	var a *ssa.Alloc
+	for _, cand := range f.declPos[v.Pos()] {
+		// several allocs share a position for the implicit variables of a
+		// type switch: take the one that is live in this state
+		if f.isLocal(cand) {
+			if _, live := ev.st.cells[cand]; live {
+				a = cand
+			}
+		} else if _, live := f.regs[cand]; live && (ev.loop == nil || cand.Block().Dominates(ev.loop.header)) {
+			a = cand
+		}
+		if a == nil && len(f.declPos[v.Pos()]) == 1 {
+			a = cand
+		}
+	}
 	if a == nil {
 		// parameter that was never spilled?
 		for _, p := range f.fn.Params {
@@ -636,7 +661,10 @@ func (ev *Eval) quantifier(kind string, fl *ast.FuncLit) *Val {
 		ev.fail("quantifier body must be a single expression")
 		return vBool("false")
 	}
+	nb := len(f.boundActive)
+	f.boundActive = append(f.boundActive, bnames...)
 	body := sub.evalBool(ret.Results[0])
+	f.boundActive = f.boundActive[:nb]
 	// re-index: forall i :: P(s[off+i])  ==>  forall j :: P'(s[j]) with i = j-off,
 	// so that the array access itself can serve as the trigger.
 	for _, bn := range bnames {
@@ -750,6 +778,25 @@ func (ev *Eval) callExpr(x *ast.CallExpr) *Val {
 		s, i := arg(0), arg(1)
 		at := func(k int64) string { return ev.byteAt(s, arith("+", i.T, num(k))) }
 		return vInt("(+ (* 16777216 "+at(0)+") (* 65536 "+at(1)+") (* 256 "+at(2)+") "+at(3)+")", nil)
+	case "is":
+		v := arg(0)
+		if v.K == KIface && len(x.Args) == 2 {
+			if tn := ev.typeName(x.Args[1]); tn != nil {
+				return vBool(eq(v.Fs[0].T, f.typeTag(tn)))
+			}
+			if se, ok := x.Args[1].(*ast.StarExpr); ok {
+				if tn := ev.typeName(se.X); tn != nil {
+					return vBool(eq(v.Fs[0].T, f.typeTag(types.NewPointer(tn))))
+				}
+			}
+		}
+	case "pre":
+		// value of an expression when the loop was entered
+		if ev.loop != nil && ev.loop.entryOld != nil {
+			sub := ev.sub()
+			sub.st = ev.loop.entryOld
+			return sub.eval(x.Args[0])
+		}
 	case "ref":
 		return vInt(objectID(arg(0)), nil)
 	case "has":
@@ -934,61 +981,121 @@ func (ev *Eval) specCall(sp *SpecFn, x *ast.CallExpr) *Val {
 // application that is evaluated (one unfolding).
 func (ev *Eval) recSpecCall(sp *SpecFn, args []*Val) *Val {
 	f := ev.f
-	var sorts, terms []string
-	for _, a := range args {
-		switch a.K {
-		case KInt:
-			sorts = append(sorts, "Int")
-			terms = append(terms, a.T)
-		case KBool:
-			sorts = append(sorts, "Bool")
-			terms = append(terms, a.T)
-		case KSeq:
-			sorts = append(sorts, "(Array Int Int)")
-			terms = append(terms, a.T)
-		default:
-			ev.fail("recursive spec %s: unsupported argument kind", sp.Name)
-			return vInt("0", nil)
+	info := f.recSpecs[sp.Name]
+	if info != nil && info.phaseA {
+		return &Val{K: info.resKind, T: info.dummy}
+	}
+	if info == nil {
+		info = &recSpecInfo{fn: sym("spec." + sp.Name), resKind: KInt, dummy: "0", rs: "Int"}
+		if sp.ResType != nil && exprString(sp.ResType) == "bool" {
+			info.resKind, info.dummy, info.rs = KBool, "false", "Bool"
 		}
-	}
-	rs := "Int"
-	if sp.ResType != nil && exprString(sp.ResType) == "bool" {
-		rs = "Bool"
-	}
-	fn := sym("spec." + sp.Name)
-	first := !f.sc.declared[fn]
-	f.sc.declareFun(fn, sorts, rs)
-	if first {
-		// defining axiom, quantified over the parameters
-		sub := ev.sub()
-		sub.env = map[string]*Val{}
-		sub.lets = map[string]ast.Expr{}
-		sub.locals = false
-		sub.bound = map[string]*Val{}
-		sub.pkg = f.eng.typesPkg(sp.PkgPath, ev.pkg)
-		var decls, ps []string
-		for i, p := range sp.Params {
-			bn := f.sc.fresh(p.Name)
-			decls = append(decls, "("+bn+" "+sorts[i]+")")
-			ps = append(ps, bn)
-			k := KInt
-			if sorts[i] == "Bool" {
-				k = KBool
-			} else if sorts[i] != "Int" {
-				k = KSeq
+		f.recSpecs[sp.Name] = info
+		pkg := f.eng.typesPkg(sp.PkgPath, ev.pkg)
+		// bound parameters
+		var decls []string
+		var bnames []string
+		params := map[string]*Val{}
+		for _, p := range sp.Params {
+			ts := exprString(p.Type)
+			var v *Val
+			gen := func(l Leaf) string {
+				bn := f.sc.fresh(p.Name + l.Path)
+				decls = append(decls, "("+bn+" "+l.Sort+")")
+				bnames = append(bnames, bn)
+				info.paramSorts = append(info.paramSorts, l.Sort)
+				return bn
 			}
-			sub.bound[p.Name] = &Val{K: k, T: bn}
+			switch ts {
+			case "seq":
+				v = &Val{K: KSeq, T: gen(Leaf{Sort: "(Array Int Int)"})}
+			case "int":
+				v = &Val{K: KInt, T: gen(Leaf{Sort: "Int"})}
+			case "bool":
+				v = &Val{K: KBool, T: gen(Leaf{Sort: "Bool"})}
+			default:
+				tv, err := types.Eval(f.eng.fset, pkg, token.NoPos, ts)
+				if err != nil || tv.Type == nil {
+					ev.fail("spec %s: cannot resolve parameter type %s", sp.Name, ts)
+					return vInt("0", nil)
+				}
+				v = build(tv.Type, gen)
+			}
+			params[p.Name] = v
 		}
-		body := sub.eval(sp.Body)
-		app := "(" + fn + " " + strings.Join(ps, " ") + ")"
+		mk := func(ss *State) *Eval {
+			sub := ev.sub()
+			sub.env = params
+			sub.lets = map[string]ast.Expr{}
+			sub.locals = false
+			sub.bound = map[string]*Val{}
+			sub.pkg = pkg
+			sub.st, sub.old = ss, ss
+			sub.inOld = false
+			sub.shift = nil
+			return sub
+		}
+		nb := len(f.boundActive)
+		f.boundActive = append(f.boundActive, bnames...)
+		// phase A: discover the heaps the body reads
+		info.phaseA = true
+		ssA := &State{cells: map[*ssa.Alloc]*Val{}, heaps: map[string]string{}, wm: "0", pc: "true", sym: &symHeaps{}}
+		saveCmds := len(f.sc.cmds)
+		mk(ssA).eval(sp.Body)
+		f.sc.cmds = f.sc.cmds[:saveCmds]
+		info.phaseA = false
+		info.heapNames = ssA.sym.names
+		info.heapSorts = ssA.sym.sorts
+		// phase B: the real definition
+		ssB := &State{cells: map[*ssa.Alloc]*Val{}, heaps: map[string]string{}, wm: "0", pc: "true", sym: &symHeaps{}}
+		var hb []string
+		for i, n := range info.heapNames {
+			bn := f.sc.fresh("hp")
+			ssB.heaps[n] = bn
+			hb = append(hb, bn)
+			decls = append(decls, "("+bn+" "+info.heapSorts[i]+")")
+			f.boundActive = append(f.boundActive, bn)
+		}
+		f.sc.declareFun(info.fn, append(append([]string{}, info.paramSorts...), info.heapSorts...), info.rs)
+		body := mk(ssB).eval(sp.Body)
+		f.boundActive = f.boundActive[:nb]
+		if len(ssB.sym.names) > 0 {
+			ev.fail("spec %s: heap set changed between phases", sp.Name)
+		}
+		app := "(" + info.fn + " " + strings.Join(append(append([]string{}, bnames...), hb...), " ") + ")"
 		f.sc.add("; definition of recursive spec " + sp.Name)
 		f.sc.add(fmt.Sprintf("(assert (forall (%s) (! (= %s %s) :pattern (%s))))", strings.Join(decls, " "), app, body.T, app))
+		f.usedAssumed["recursive spec function "+sp.Name+" is well-founded (by inspection)"] = true
 	}
-	t := "(" + fn + " " + strings.Join(terms, " ") + ")"
-	if rs == "Bool" {
-		return vBool(t)
+	var terms []string
+	for _, a := range args {
+		ts, err := leafTerms(a)
+		if err != nil {
+			ev.fail("spec %s: argument not materialisable", sp.Name)
+			return vInt("0", nil)
+		}
+		terms = append(terms, ts...)
 	}
-	return vInt(t, nil)
+	if len(terms) != len(info.paramSorts) {
+		ev.fail("spec %s: argument shape mismatch (%d leaves, want %d)", sp.Name, len(terms), len(info.paramSorts))
+		return vInt("0", nil)
+	}
+	for i, n := range info.heapNames {
+		terms = append(terms, f.heap(ev.st, n, info.heapSorts[i]))
+	}
+	t := "(" + info.fn + " " + strings.Join(terms, " ") + ")"
+	return &Val{K: info.resKind, T: t}
+}
+
+type recSpecInfo struct {
+	fn         string
+	paramSorts []string
+	heapNames  []string
+	heapSorts  []string
+	resKind    Kind
+	rs         string
+	dummy      string
+	phaseA     bool
 }
 
 // resolveMods evaluates modifies targets to (heap, object) pairs.
@@ -1019,7 +1126,7 @@ func (f *FuncVC) resolveMods(ev *Eval, mods []ModTarget) []resolvedMod {
 				ev.fail("modifies %s: not a slice", m.Text)
 				continue
 			}
-			out = append(out, resolvedMod{kind: "elems", heap: elemHeapPrefix(v.Ty.Underlying().(*types.Slice).Elem()), obj: v.Fs[0].T, off: v.Fs[1].T, ln: v.Fs[2].T, text: m.Text})
+			out = append(out, resolvedMod{kind: "elems", heap: elemHeapPrefix(v.Ty.Underlying().(*types.Slice).Elem()), obj: v.Fs[0].T, off: v.Fs[1].T, ln: v.Fs[3].T, text: m.Text})
 		case "ghost":
 			ce := m.Expr.(*ast.CallExpr)
 			id, _ := ce.Fun.(*ast.Ident)
